@@ -224,3 +224,21 @@ contract(
     trace={"pdb2pqr.quatfit:find_coordinates": V3, "pdb2pqr.aa:Amino.rebuild_tetrahedral": Const(False)},
     name="add_hydrogens.cys_thiol", native=False,
 )
+
+
+# ====================================================================================================== what is missing
+# num_missing_heavy (a property with a side effect: it refills residue.missing, which repair_heavy consumes): exactly the
+# template's heavy atoms that the residue does not have - no hydrogen, no peptide pseudo-atom - counted once each.
+_REF = Obj("pdb2pqr.definitions:DefinitionResidue", name=Const("LEU"), map=DictOf(
+    ("N", DA("N", [])), ("CA", DA("CA", [])), ("C", DA("C", [])), ("CB", DA("CB", [])), ("CG", DA("CG", [])),
+    ("H", DA("H", [])), ("HA", DA("HA", [])), ("N+1", DA("N+1", [])), ("C-1", DA("C-1", []))))
+_LEU = Named("res", Obj("pdb2pqr.aa:LEU", name=Const("LEU"), missing=Items(Const("STALE")),
+                        map=DictOf(("N", AT("n", "N")), ("CA", AT("ca", "CA")), ("CG", AT("cg", "CG"))), reference=_REF))
+
+contract(
+    "pdb2pqr.biomolecule:Biomolecule.num_missing_heavy", ["C03", "C12"],
+    params={"self": Obj("pdb2pqr.biomolecule:Biomolecule", residues=Items(Obj("pdb2pqr.aa:WAT", name=Const("HOH")), _LEU))},
+    requires=[],
+    ensures=["result == 2", "len(res.missing) == 2 and res.missing[0] == 'C' and res.missing[1] == 'CB'"],
+    name="num_missing_heavy", native=False,
+)
